@@ -162,7 +162,19 @@ def _run_pmap(case, D, hist, params):
   return outs, jax.tree.map(np.asarray, state)
 
 
-def _cmp_tree(a, b, rtol, clause, what):
+def _denoted(packed, r):
+  """The matrices a packed low-rank preconditioner denotes: the root c (I - V V') + V diag(inv) V', the sketch
+  V diag(l) V' and the tail. With a (near-)degenerate spectrum at the cut the kept eigenvectors are not unique
+  (statistic eps I + g g': four equal eigenvalues), the denoted matrices are."""
+  p = np.asarray(packed, np.float64)
+  d = p.shape[0]
+  v, inv, c = p[:, :r], p[:r, -2], p[0, -1]
+  ev, tail, hz = p[d - r:, -1], p[1, -1], bool(p[-1, -2])
+  root = np.eye(d) if hz else c * (np.eye(d) - v @ v.T) + (v * inv) @ v.T
+  return np.concatenate([root.ravel(), ((v * ev) @ v.T).ravel(), [tail]])
+
+
+def _cmp_tree(a, b, rtol, clause, what, packed_rank=0):
   import jax
   la = jax.tree_util.tree_flatten_with_path(a)[0]
   lb = jax.tree.leaves(b)
@@ -176,6 +188,9 @@ def _cmp_tree(a, b, rtol, clause, what):
     xf, yf = x.astype(np.float64), y.astype(np.float64)
     if "training_metrics" in jax.tree_util.keystr(path):
       continue      # diagnostics (iteration counts) are not part of "updates and state" compared numerically
+    if (packed_rank and "preconditioners" in jax.tree_util.keystr(path) and x.ndim == 2
+        and x.shape[1] == packed_rank + 2 < x.shape[0] and np.all(np.isfinite(xf)) and np.all(np.isfinite(yf))):
+      xf, yf = _denoted(xf, packed_rank), _denoted(yf, packed_rank)
     fin = np.isfinite(xf) & np.isfinite(yf)
     require(bool(np.all(np.isfinite(xf) == np.isfinite(yf))), clause,
             f"{what} {jax.tree_util.keystr(path)}: non-finite entries at different positions")
@@ -216,7 +231,8 @@ def check_pmap(case):
       worst = max(worst, _cmp_tree(pick0(ud), pick0(u1), rtol, "updates-equal-single-device",
                                    f"D={D} N={N} (N mod D = {N % D}) mode {case['mode']} step {c} update"))
     worst = max(worst, _cmp_tree(pick0(s), pick0(base_s), rtol, "state-equals-single-device",
-                                 f"D={D} N={N} (N mod D = {N % D}) mode {case['mode']} final state"))
+                                 f"D={D} N={N} (N mod D = {N % D}) mode {case['mode']} final state",
+                                 packed_rank=abs(int(case["o"].get("compression_rank", 0)))))
     if N % D != 0:
       nontrivial = True
   return Result(nontrivial, [f"mode={case['mode']}", f"N={min(N, 30) // 5 * 5}+"] + [f"NmodD={N % D}" for D in case["ds"]],
@@ -264,8 +280,18 @@ def check_sharded(case):
       for c, (u1, ud) in enumerate(zip(base_u, us)):
         worst = max(worst, _cmp_tree(ud, u1, rtol, "updates-equal-single-device", f"{what} step {c} update"))
       gb, gd = base_s.stats.global_stats, s.stats.global_stats
+      rk = abs(int(o.get("compression_rank", 0)))
+      slot_size = {}
+      for nm_ in names:
+        ls = base_s.stats.local_stats[nm_]
+        for j, sz in enumerate(ls.sizes):
+          slot_size[int(ls.index_start) + j] = int(sz)
       for nm, a, b in (("statistics", gd.statistics, gb.statistics), ("preconditioners", gd.preconditioners, gb.preconditioners)):
         a, b = np.asarray(a, np.float64)[:N], np.asarray(b, np.float64)[:N]
+        if nm == "preconditioners" and rk and a.ndim == 3 and a.shape[2] == rk + 2 and np.all(np.isfinite(a)) and np.all(np.isfinite(b)):
+          # packed slots (statistic larger than rank + 2) are compared through the matrices they denote
+          a = np.stack([_denoted(a[i], rk) if slot_size.get(i, 0) > rk + 2 else np.resize(a[i].ravel(), 2 * a.shape[1] ** 2 + 1) for i in range(a.shape[0])])
+          b = np.stack([_denoted(b[i], rk) if slot_size.get(i, 0) > rk + 2 else np.resize(b[i].ravel(), 2 * b.shape[1] ** 2 + 1) for i in range(b.shape[0])])
         require(bool(np.all(np.isfinite(a) == np.isfinite(b))), "state-equals-single-device",
                 f"{what}: global {nm} have non-finite entries at different positions")
         fin = np.isfinite(a) & np.isfinite(b)
